@@ -34,25 +34,25 @@ type lineKind struct {
 
 var LineKinds = map[string]lineKind{
 	"valid":           {false, false, nil},
-	"valid-extra":     {false, false, nil},                                         // unknown extra field
-	"valid-mapped":    {false, false, nil},                                         // ::ffff:a.b.c.d
-	"missing-port":    {true, false, []string{CausePort}},                          // {"ip":"1.2.3.4"}
+	"valid-extra":     {false, false, nil},                // unknown extra field
+	"valid-mapped":    {false, false, nil},                // ::ffff:a.b.c.d
+	"missing-port":    {true, false, []string{CausePort}}, // {"ip":"1.2.3.4"}
 	"port-0":          {true, false, []string{CausePort}},
 	"port-65536":      {true, false, []string{CausePort}},
 	"port-negative":   {true, false, []string{CausePort}},
 	"port-null":       {true, false, []string{CausePort, CauseJSON}},
-	"missing-ip":      {true, true, []string{CauseIP, CauseJSON}},                  // {"port":80}
-	"null":            {true, true, []string{CauseIP, CauseJSON}},                  // null
-	"empty-object":    {true, true, []string{CauseIP, CauseJSON, CausePort}},       // {}
-	"ip-null":         {true, true, []string{CauseIP, CauseJSON}},                  // {"ip":null,"port":80}
-	"wrong-key-case":  {true, true, []string{CauseIP, CauseJSON}},                  // {"IP":...}: the documented keys are lower case
-	"wrong-type-ip":   {true, true, []string{CauseIP, CauseJSON}},                  // {"ip":5,...}
-	"top-level-other": {true, true, []string{CauseIP, CauseJSON}},                  // 5, "x", [1]
-	"bad-address":     {true, true, []string{CauseIP}},                             // "1.2.3", "300.1.1.1", "", "abc"
-	"bad-json":        {true, true, []string{CauseJSON}},                           // truncated / garbage
+	"missing-ip":      {true, true, []string{CauseIP, CauseJSON}},            // {"port":80}
+	"null":            {true, true, []string{CauseIP, CauseJSON}},            // null
+	"empty-object":    {true, true, []string{CauseIP, CauseJSON, CausePort}}, // {}
+	"ip-null":         {true, true, []string{CauseIP, CauseJSON}},            // {"ip":null,"port":80}
+	"wrong-key-case":  {true, true, []string{CauseIP, CauseJSON}},            // {"IP":...}: the documented keys are lower case
+	"wrong-type-ip":   {true, true, []string{CauseIP, CauseJSON}},            // {"ip":5,...}
+	"top-level-other": {true, true, []string{CauseIP, CauseJSON}},            // 5, "x", [1]
+	"bad-address":     {true, true, []string{CauseIP}},                       // "1.2.3", "300.1.1.1", "", "abc"
+	"bad-json":        {true, true, []string{CauseJSON}},                     // truncated / garbage
 	"blank":           {true, true, []string{CauseJSON}},
-	"too-long":        {true, true, []string{CauseTooLong, CauseJSON}},             // > 64 KiB and not valid JSON either
-	"ipv6":            {true, true, []string{CauseAny}},                            // a real IPv6 address: not an IPv4 target
+	"too-long":        {true, true, []string{CauseTooLong, CauseJSON}}, // > 64 KiB and not valid JSON either
+	"ipv6":            {true, true, []string{CauseAny}},                // a real IPv6 address: not an IPv4 target
 	// only generated in pairs mode (in addresses mode the port field is documented as irrelevant and the
 	// statement leaves open whether an ill-typed one spoils the line)
 	"wrong-type-port": {true, true, []string{CausePort, CauseJSON}},
